@@ -15,7 +15,10 @@ Record kcase := mkk {
 }.
 
 Record qobs := mkq { q_cls : string; q_field : string; q_obs : parts }.
-Record hobs := mkh { h_field : string; h_explicit : option string; h_parts : parts; h_help : option string }.
+Record hobs := mkh { h_field : string; h_explicit : option string; h_parts : parts; h_help : option string;
+                     h_custom : option string;        (* field(help=..): metadata['custom_args'].get('help') *)
+                     h_hasdefault : bool;             (* fw.default is not None *)
+                     h_action : option string         (* fw.arg_options.get('help'): what the argparse action is given *) }.
 
 Record case := mkcase {
   c_classes : list kcase;
@@ -89,7 +92,8 @@ Fixpoint run_all (ks : list kcase) (qs : list qobs) (st : list (string * cache))
 
 Definition model_ok (c : case) : bool :=
   run_all c.(c_classes) (all_queries c) []
-  && forallb (fun h => opt_eqb String.eqb (help_gen (h_explicit h) (h_parts h)) (h_help h)) c.(c_helps).
+  && forallb (fun h => opt_eqb String.eqb (help_gen (h_explicit h) (h_parts h)) (h_help h)
+                       && opt_eqb String.eqb (final_help_gen (h_custom h) (action_help_gen (h_help h) (h_hasdefault h))) (h_action h)) c.(c_helps).
 
 (* ---------- spec ---------- *)
 Definition entry_of (k : kcase) (f : string) : string := last_assoc f (kc_args k) "".
@@ -127,6 +131,8 @@ Definition spec_helpobs (ks : list kcase) (target : string) (h : hobs) : bool :=
   | Some k => match all_some (map (provided_of ks (h_field h)) (kc_mro k)) with
               | None => false
               | Some chain => opt_eqb String.eqb (spec_help (h_explicit h) (spec_parts chain)) (h_help h)
+                              && spec_action_help (spec_help (explicit_help (h_custom h) (h_explicit h)) (spec_parts chain))
+                                                  (h_action h)
               end
   end.
 
